@@ -261,6 +261,9 @@ class PoolCtx:
         self.call_failures = 0
         self.set_while_busy = False
         self.resized_idle = False
+        self.last_start_idx = None
+        self.rejected_starts = 0
+        self.progress_off = False    # pool_size was assigned while spawners were waiting (F-SIZE region): only limits are checked
 
 
 class Driver:
@@ -1124,7 +1127,7 @@ class Sim:
                 if pc.size is not None:
                     if nr > pc.size:
                         self.violate("C01", "num_running_over_size", f"{where}: {pc.pool_str}.num_running={nr} > size {pc.size}")
-                elif p.is_full:
+                elif p.is_full and not pc.progress_off:
                     self.violate("C01", "unbounded_full", f"{where}: unbounded pool reports is_full")
 
     def after_handle(self):
@@ -1144,7 +1147,7 @@ class Sim:
                 self._check_limit(pc)
             if nr != pc.n_run:
                 self.violate("C02", "idle_running", f"idle: {pc.pool_str}.num_running={nr} but {pc.n_run} tasks are in flight")
-            if not pc.size_changed and pc.size is not None and cbs == 0 and not any(t.early for t in pc.tasks):
+            if not pc.size_changed and not pc.progress_off and pc.size is not None and cbs == 0 and not any(t.early for t in pc.tasks):
                 # (a task cancelled before its first step leaks its slot: recorded finding F-EARLY, decided by C02)
                 full = p.is_full
                 if full != (nr == pc.size):
@@ -1156,7 +1159,7 @@ class Sim:
                 if t.pend_cancel > 0 and t.state == "L":
                     self.violate(t.pend_prop or "C06", "cancel_lost", f"idle: {t.name} was cancelled but its worker never observed it")
             # work conservation
-            if not pc.closed and not pc.size_changed:
+            if not pc.closed and not pc.size_changed and not pc.progress_off:
                 full = p.is_full
                 for r in pc.reqs:
                     if r.accepted_seq is None or not r.work_left():
@@ -1376,6 +1379,8 @@ class Sim:
                 self.violate("C09", "closed_precedence", f"{kind} on closed pool raised {type(exc).__name__}")
                 self.violate("C08", "closed_rejection", f"{kind} on closed pool raised {type(exc).__name__}")
             if exc is not None:
+                if kind == "start":
+                    pc.rejected_starts += 1
                 if kind == "apply" and step.get("ash") == 4 and counting is not None and counting.pulled:
                     self.violate("C09", "args_iterable_touched", f"rejected apply advanced its args iterator {counting.pulled}x")
                 after = self._snapshot(pc)
@@ -1411,6 +1416,12 @@ class Sim:
             if kind == "start":
                 m = _START_NAME_RE.match(ret)
                 okname = bool(m)
+                if m:
+                    idx = int(m.group(1))
+                    if pc.last_start_idx is not None and pc.rejected_starts and idx != pc.last_start_idx + 1:
+                        self.violate("C09", "trace_left", f"start() returned {ret!r} after 'start-group-{pc.last_start_idx}': the {pc.rejected_starts} rejected start() calls in between advanced the group index")
+                    pc.last_start_idx = idx
+                    pc.rejected_starts = 0
             else:
                 m = _GEN_NAME_RE.match(ret)
                 okname = bool(m) and m.group(1) == kind and m.group(2) == func.__name__
@@ -2019,17 +2030,29 @@ class Sim:
                          tainted=pc.set_while_busy)
         return True
 
-    def _pool_is_empty(self, pc):
-        return not (pc.n_run or pc.n_C or pc.cb_open or pc.closed or pc.size_changed
-                    or any(t.early for t in pc.tasks)
-                    or any(r.accepted_seq is not None and (r.work_left() or not r.spawner_done()) for r in pc.reqs))
+    def _pool_is_empty(self, pc, waiting_ok=False):
+        if pc.n_run or pc.n_C or pc.cb_open or pc.closed or pc.size_changed or any(t.early for t in pc.tasks):
+            return False
+        if pc.pending_done and any(not t.task.done() for t in pc.pending_done):
+            return False
+        if waiting_ok:
+            return True
+        return not any(r.accepted_seq is not None and (r.work_left() or not r.spawner_done()) for r in pc.reqs)
 
     def _op_resize_idle(self, step, ctx):
         """A new size is assigned while the pool is empty (no task, no callback, no request in progress): from then
         on the pool is a pool of that size, and every limit oracle continues with the new value."""
         pc = self._pc(step)
-        if pc is None or ctx is not None or not self._pool_is_empty(pc):
+        if pc is None or ctx is not None or not self._pool_is_empty(pc, bool(step.get("w"))):
             return False
+        if not self._pool_is_empty(pc):
+            if not self.loop.is_idle():
+                return False         # a slot may be in transit to a spawner that was woken but has not run yet
+            # No task is in flight, but spawners are waiting for room.  C01 lets the size change here (it is fixed
+            # only "while tasks are in flight"); what the waiting spawners may expect afterwards is the recorded
+            # finding F-SIZE (an assignment wakes nobody), so from now on only the limit oracles stay in force.
+            pc.progress_off = True
+            self.stats["probe:size_assigned_while_spawners_wait"] += 1
         import math
         v = step["v"]
         val = math.inf if v is None else v
@@ -2039,7 +2062,7 @@ class Sim:
             self.violate("C15", "set_raised", f"pool_size={v} on an empty pool raised {type(e).__name__}: {e}")
             return True
         got = pc.pool.pool_size
-        if got != val:
+        if got != val and not pc.progress_off:
             self.violate("C15", "getter_idle", f"pool_size={got} right after pool_size={val} was assigned to an empty pool")
         self.stats["probe:size_assigned_to_empty_pool"] += 1
         if (pc.size is None) != (v is None):
@@ -2137,7 +2160,7 @@ class Sim:
 
     def final_checks(self):
         for pc in self.pools:
-            blocked_forever = pc.size == 0
+            blocked_forever = pc.size == 0 or pc.progress_off
             for t in pc.tasks:
                 if t.n < 0:
                     continue
@@ -2154,7 +2177,7 @@ class Sim:
                     self.violate("C03", "ccb_count", f"cancel callback ran {t.ccb_calls}x for {t.name} (coroutine ended by {t.exit_how})")
                 if t.pend_cancel > 0 and t.exit_how != "cancel" and t.cancel_obs == 0 and not t.early:
                     self.violate(t.pend_prop or "C06", "cancel_lost", f"{t.name} was cancelled but never observed it")
-            if not pc.size_changed and not pc.n_run and not pc.n_C and not pc.cb_open and not any(t.early for t in pc.tasks) \
+            if not pc.size_changed and not pc.progress_off and not pc.n_run and not pc.n_C and not pc.cb_open and not any(t.early for t in pc.tasks) \
                     and not any(r.work_left() for r in pc.reqs if r.accepted_seq is not None):
                 import math
                 exp = math.inf if pc.size is None else pc.size
@@ -2202,15 +2225,19 @@ class Sim:
             for d in pc.gathers:
                 if d.state == "active" and not work_left:
                     self.violate("C08", "gather_never_returned", "end of run: every task finished but gather_and_close() did not return")
+                    if self.inj_by_pool[pc.idx]:
+                        self.violate("C12", "gather_never_returned", f"end of run: every task finished but gather_and_close(return_exceptions={d.rex}) did not return (after a task/callback of this pool had raised)")
         for d in self.drivers:
             if d.kind == "flush" and d.state == "active":
                 self.violate("C13", "flush_never_returned", "end of run: flush() did not return")
+                if self.inj_by_pool[d.pc.idx]:
+                    self.violate("C12", "flush_never_returned", "end of run: flush() did not return (after a task/callback of this pool had raised)")
 
     def capacity_probe(self):
         """C02/C12: once all work is finished an N-sized pool can again run N tasks at once."""
         for pc in self.pools:
             N = pc.size
-            if N is None or N == 0 or N > 8 or pc.closed or pc.size_changed:
+            if N is None or N == 0 or N > 8 or pc.closed or pc.size_changed or pc.progress_off:
                 continue
             if pc.n_C or pc.cb_open:
                 continue
